@@ -307,6 +307,7 @@ class Program:
         # functions outside the reference inventory (helpers extracted by a later refactoring) are transparent
         import inline
         self.renamed = {}
+        self.absorbed = {}
         self.inlined = inline.apply(self, VERIF) if os.environ.get("SDLINT_NO_INLINE") != "1" else []
 
     def _qname(self, b):
